@@ -54,9 +54,27 @@ def _release_round(pid, cfg, tier, seed):
     return [], bad + [r for r in dis if r not in bad], {"release_evaluations": len(recs), "release_spec_failures": len(bad), "release_disagreements": len(dis)}
 
 
+def _fresh_library_build():
+    """cargo keys its rebuilds on mtimes; when the `repo` symlink is pointed at another tree (or back) whose files are older, the
+    harness would silently keep the previous library.  Remember which tree was compiled and clean the library crate when it changed."""
+    import hashlib
+    import verif_lib as V
+    real = os.path.realpath(os.path.join(V.ROOT, "repo"))
+    rc, head = V.sh("git -C %s rev-parse HEAD; git -C %s status --porcelain -- rust/src" % (real, real))
+    stamp = real + "\n" + hashlib.sha256(head.encode()).hexdigest()
+    path = os.path.join(V.HARNESS, "target", ".c14-library-stamp")
+    old = open(path).read() if os.path.exists(path) else None
+    if old is not None and old != stamp:
+        with V.BuildLock("cargo"):
+            V.sh("cargo clean --offline -p cardano-serialization-lib; cargo clean --offline --release -p cardano-serialization-lib", cwd=V.HARNESS)
+    os.makedirs(os.path.dirname(path), exist_ok=True)
+    open(path, "w").write(stamp)
+
+
 def _custom_check(pid, cfg, tier, seed):
     import verif_lib as V
     t0 = time.time()
+    _fresh_library_build()
     rc = V.check(pid, cfg, tier, seed)              # dev profile (overflow checks on): proofs + correspondence + evidence
     breaks, bad, stats = _release_round(pid, cfg, tier, seed)
     evp = os.path.join(V.EVID, "%s.json" % pid)
@@ -68,7 +86,8 @@ def _custom_check(pid, cfg, tier, seed):
         if bad:
             hdr.append("release-profile harness: property fails / model disagrees on %d cases (first ones below)" % len(bad))
         path = V.write_replay(pid, seed, "release-fail", bad[:5], hdr)
-        print("VIOLATION property=%s replay=%s%s" % (pid, path, "" if bad else " no-failing-input-found"))
+        if rc == 0:       # the dev-profile stage has not already reported a violation
+            print("VIOLATION property=%s replay=%s%s" % (pid, path, "" if bad else " no-failing-input-found"))
         ev["violations"] = 1
         rc = 1
     ev["wall_s"] = round(time.time() - t0, 1)
